@@ -126,8 +126,9 @@ func ruleF6(c *Ctx, id string) {
 		k, isk := constInt(bo.Y)
 		return isk && k == 1
 	}
-	inc := func(in ssa.Instruction) bool { return isNthread(in, token.ADD) }
-	dec := func(in ssa.Instruction) bool { return isNthread(in, token.SUB) }
+	// directly or through a helper that does it on every path
+	inc := P.NewAlways(func(in ssa.Instruction) bool { return isNthread(in, token.ADD) }).Instr
+	dec := P.NewAlways(func(in ssa.Instruction) bool { return isNthread(in, token.SUB) }).Instr
 	// increment before the go statement
 	for _, b := range start.Blocks {
 		for _, in := range b.Instrs {
@@ -145,7 +146,7 @@ func ruleF6(c *Ctx, id string) {
 		cal := staticCallee(in)
 		return cal != nil && (cal.Name() == "Signal" || cal.Name() == "Broadcast") && strings.HasSuffix(FuncName(cal), "sync.Cond)."+cal.Name())
 	}
-	R.Check(MustAfter(body, sig, nil)(entry), id, "shrinker.shrinker|signal on every path", P.Pos(body.Pos()), "the condition variable is signalled on every non-panicking path", "must-follow", "Shutdown is never woken")
+	R.Check(MustAfter(body, P.NewAlways(sig).Instr, nil)(entry), id, "shrinker.shrinker|signal on every path", P.Pos(body.Pos()), "the condition variable is signalled on every non-panicking path", "must-follow", "Shutdown is never woken")
 	for _, name := range []string{"Shutdown", "Crash"} {
 		f := c.fn(id, "shrinker.(*ShrinkerSt)."+name)
 		if f == nil {
